@@ -3,7 +3,7 @@
   (the AST text of the emit tie) for every generated / corpus hex string:
     `gram k r`   the AST is of the shape hex_grammar.y can build (`Kind`: token, `tokens`, rest of a token sequence,
                  `alternatives`, piece of a chained string)
-    `hexG r`     the fragment of the VM-completeness theorems (Thm/C02 `vm_complete_hex_partial`, `hex_scan_complete_partial`)
+    `hexG r`     the fragment of the VM-completeness theorems (Thm/C02 `vm_complete_hex`, `hex_scan_complete_partial`)
     `mirror r`   the pattern read right to left (what EMIT_BACKWARDS emits), `maskOK r` nibble masks only
   Lemmas/ReHexGram.lean proves `gram k r = true → Gram k r` (the inductive description) and `Gram k r → HexG r ∧ HexG (rev r) ∧
   MaskOK r`.  Core Lean only.
